@@ -18,7 +18,9 @@ StartsATG == {<<65, 84, 71>>}
 StartsATG_GTG == {<<65, 84, 71>>, <<71, 84, 71>>}
 StopsStd == {<<84, 65, 71>>, <<84, 71, 65>>, <<84, 65, 65>>}
 
-ASSUME Starts \cap Stops = {}                                  \* precondition of the property
+\* a codon in both sets (cfg SeqBasicsMC_overlap): TGA is a start and a stop codon
+StartsATG_TGA == {<<65, 84, 71>>, <<84, 71, 65>>}
+StopsTGA_TAA == {<<84, 71, 65>>, <<84, 65, 65>>}
 ASSUME ComplementLaws(DnaPairs) /\ ComplementLaws(RnaPairs)    \* all 256 bytes
 ASSUME \A A \in SUBSET {0, 1, 7, 200, 255} : RankLaws(A)
 ASSUME \A t \in {<<>>, <<65>>, <<84, 71, 67>>, <<0, 255, 110, 78, 65, 99>>} :
